@@ -61,6 +61,14 @@ type gparser struct {
 	s   string
 	pos int
 	cs  Charset
+	eof bool // a failure happened because the input ended (the input is a viable prefix)
+}
+
+func (p *gparser) fail() bool {
+	if p.pos >= len(p.s) {
+		p.eof = true
+	}
+	return false
 }
 
 func (p *gparser) peek() (byte, bool) {
@@ -87,10 +95,10 @@ func (p *gparser) spaces() {
 func (p *gparser) param() (Param, bool) {
 	name, ok := p.ident()
 	if !ok {
-		return Param{}, false
+		return Param{}, p.fail()
 	}
 	if c, ok := p.peek(); !ok || c != ':' {
-		return Param{}, false
+		return Param{}, p.fail()
 	}
 	p.pos++
 	p.spaces()
@@ -101,10 +109,10 @@ func (p *gparser) param() (Param, bool) {
 			p.pos++
 		}
 		if p.pos == st {
-			return Param{}, false
+			return Param{}, p.fail()
 		}
 		if c, ok := p.peek(); !ok || c != '/' {
-			return Param{}, false
+			return Param{}, p.fail()
 		}
 		v := p.s[st:p.pos]
 		p.pos++
@@ -112,7 +120,7 @@ func (p *gparser) param() (Param, bool) {
 	}
 	v, ok := p.ident()
 	if !ok {
-		return Param{}, false
+		return Param{}, p.fail()
 	}
 	return Param{Name: name, Value: v}, true
 }
@@ -127,7 +135,7 @@ func (p *gparser) element() (Elem, bool, bool) { // elem, present, ok
 		save := p.pos
 		name, ok := p.ident()
 		if !ok {
-			return Elem{}, false, false
+			return Elem{}, false, p.fail()
 		}
 		if c, ok := p.peek(); ok && c == '}' {
 			p.pos++
@@ -143,7 +151,7 @@ func (p *gparser) element() (Elem, bool, bool) { // elem, present, ok
 			ps = append(ps, pr)
 			c, ok := p.peek()
 			if !ok {
-				return Elem{}, false, false
+				return Elem{}, false, p.fail()
 			}
 			if c == ',' {
 				p.pos++
@@ -222,4 +230,48 @@ func MustParse(s string) Route {
 		panic("ref: catalogue route does not parse: " + s)
 	}
 	return r
+}
+
+// ViablePrefix reports whether s can be extended to a string of the grammar (under either reading
+// of the character classes): it parses, or the reference parser only failed because the input
+// ended.
+func ViablePrefix(s string) bool {
+	if s == "" {
+		return true
+	}
+	for _, cs := range []Charset{CharsetREADME, CharsetLexer} {
+		p := &gparser{s: s, cs: cs}
+		if p.run() || p.eof {
+			return true
+		}
+	}
+	return false
+}
+
+func (p *gparser) run() bool {
+	n := 0
+	for {
+		c, ok := p.peek()
+		if !ok {
+			break
+		}
+		if c != '/' {
+			return false
+		}
+		p.pos++
+		if c, ok := p.peek(); ok && c == '?' {
+			p.pos++
+		}
+		for {
+			_, present, ok := p.element()
+			if !ok {
+				return false
+			}
+			if !present {
+				break
+			}
+		}
+		n++
+	}
+	return n > 0
 }
